@@ -5,10 +5,14 @@ CLAIMED = {
                 text="For all texts/patterns within the bounds every matcher result is checked by the solver against an independent witness/"
                      "completeness oracle, and every panic site is an obligation; bounded model checking is the right level because the property "
                      "is a for-all over inputs of a pure function whose interesting cases are rare alignments."),
+    "C03": dict(ref="DESIGN.md §3 C03", note=NOTE,
+                text="FuzzyMatchV2's score is proved equal to a naive whole-line evaluation of the documented recurrence and bounded by the best existing "
+                     "alignment, and V1/exact/prefix/suffix/boundary/equal scores equal the score of the reported occurrence, for every text and pattern "
+                     "inside the bounds; the solver covers all character-class combinations at once, which sampling cannot."),
 }
 PENDING = "check not built yet in this session (planned, see DESIGN.md §3)"
 NA = {
-    "C01": PENDING, "C03": PENDING, "C04": PENDING, "C05": PENDING, "C06": PENDING, "C07": PENDING, "C08": PENDING, "C09": PENDING,
+    "C01": PENDING, "C04": PENDING, "C05": PENDING, "C06": PENDING, "C07": PENDING, "C08": PENDING, "C09": PENDING,
     "C10": PENDING, "C11": PENDING, "C12": PENDING, "C13": PENDING, "C16": PENDING, "C18": PENDING, "C19": PENDING,
     "C14": "terminal modes, child processes, signals and the goroutine/channel render loop are OS effects and schedules, not a bounded computation the SSA→SMT encoder can make symbolic (DESIGN.md §5)",
     "C15": "relation between the whole Terminal state and the byte stream written through tui.Window; thousands of lines of drawing code on uniseg tables with no leaf whose correctness implies the property (DESIGN.md §5)",
